@@ -228,10 +228,10 @@ func (rt *Transfer) recvGenerator(idx int, f *File) error {
 		return nil
 	}
 
-	if rt.Opts.PreserveDevices && (mode == rsync.S_IFCHR ||
-		mode == rsync.S_IFBLK ||
-		mode == rsync.S_IFSOCK ||
-		mode == rsync.S_IFIFO) {
+	// Device nodes are created with --devices, fifos and sockets with
+	// --specials (-D is both).
+	if (rt.Opts.PreserveDevices && (mode == rsync.S_IFCHR || mode == rsync.S_IFBLK)) ||
+		(rt.Opts.PreserveSpecials && (mode == rsync.S_IFSOCK || mode == rsync.S_IFIFO)) {
 		if rt.Opts.DryRun {
 			return nil
 		}
